@@ -51,9 +51,10 @@ func c03JudgeAlias(c *mon.Ctx, in *c03Alias) {
 		}
 		return tx.CalcInputSignatureHash(in.Idx, flag)
 	}
-	var first []byte
-	var err error
-	if !c.Try("bt.(*Tx).CalcInputSignatureHash", func() { first, err = call() }) || err != nil || !bytes.Equal(first, refsighash.One[:]) {
+	var first, base []byte
+	var err, berr error
+	if !c.Try("bt.(*Tx).CalcInputSignatureHash", func() { base, berr = tx.CalcInputSignatureHash(in.Idx, flag); first, err = call() }) ||
+		err != nil || berr != nil || !bytes.Equal(first, refsighash.One[:]) || !bytes.Equal(base, refsighash.One[:]) {
 		c.Count("alias:first-call-not-the-constant(judged by the main oracle)")
 		return
 	}
